@@ -1,5 +1,6 @@
 """C01 — MetricFrame disaggregation is exact: each cell is the metric on that subgroup."""
 import itertools
+import json
 from fractions import Fraction as F
 
 import numpy as np
@@ -24,22 +25,200 @@ def dy(rng, hi=24):
     return str(F(rng.randint(1, hi), rng.choice([1, 1, 2, 4, 8])))
 
 
+# sha256 of lean/FairModel/Generated/FrameSrc.lean as translated from the pinned tree (see c14.PINNED_SRC_SHA256 for the rule)
+PINNED_FRAMESRC_SHA256 = "2389e898c428858014f476a7d84c9b72a01cef2fff616e5430b8001905959ea2"
+_SRC_STATE = {}
+
+
+PINNED_FEATURENAMESSRC_SHA256 = "0a1c89dbd252b51be39880b53886247aba29460f17ac5c7899ae255925b64c88"
+
+
+def _generated_changed(fname, pinned):
+    if fname not in _SRC_STATE:
+        import hashlib
+        import os
+        from .. import leanrun
+        path = os.path.join(leanrun.LEAN, "FairModel", "Generated", fname)
+        try:
+            with open(path, "rb") as f:
+                _SRC_STATE[fname] = hashlib.sha256(f.read()).hexdigest() != pinned
+        except OSError:
+            _SRC_STATE[fname] = False
+    return _SRC_STATE[fname]
+
+
+def framesrc_changed():
+    return _generated_changed("FrameSrc.lean", PINNED_FRAMESRC_SHA256)
+
+
+def featurenamessrc_changed():
+    return _generated_changed("FeatureNamesSrc.lean", PINNED_FEATURENAMESSRC_SHA256)
+
+
+def kw_sum(y_true, y_pred, **kw):
+    """pool metric `kwsum`: accepts ANY keyword names; the sum of all keyword arrays (injective in the rows for ids=2^i)"""
+    return float(sum(np.sum(np.asarray(v, dtype=float)) for v in kw.values()))
+
+
+def spec_params(spec):
+    """ordered (keyword name, values or None) of one metric spec, exactly as mfcommon.sample_params_of builds the dict"""
+    if spec["tag"] == "kwsum":
+        return [(k, v) for k, v in spec["kw"].items()]
+    out = []
+    if (len(spec.get("w") or ()) + len(spec.get("ids") or ())) % 2 == 1:
+        out.append(("unused", None))
+    for key, nm in (("w", "sample_weight"), ("ids", "ids"), ("a", "a")):
+        if spec.get(key) is not None:
+            out.append((nm, spec[key]))
+    return out
+
+
+def sample_params_for(spec, index=None):
+    if spec["tag"] == "kwsum":
+        wrap = (lambda a: pd.Series(a, index=index)) if index is not None else (lambda a: a)
+        return {k: (None if v is None else wrap(np.array([float(F(x)) for x in v]))) for k, v in spec["kw"].items()}
+    return mc.sample_params_of(spec, index)
+
+
+def pyfunc_for(tag):
+    return kw_sum if tag == "kwsum" else mc.pyfunc(tag)
+
+
+def p0p1_for(spec, n):
+    """(driver metric tag, p0, p1) of the single-metric model line: kwsum = sum over rows of the row-wise keyword sum"""
+    if spec["tag"] == "kwsum":
+        p1 = [sum((F(v[i]) for v in spec["kw"].values() if v is not None), F(0)) for i in range(n)]
+        return "fprows", [F(1)] * n, p1
+    p0, p1 = mc.p0p1(spec, n)
+    return spec["tag"], p0, p1
+
+
+def column_names(case):
+    """the all_data column names MetricFrame creates for the sample parameters of a case (f"{name}_{param}")"""
+    names = [None] if case["bare"] else list(case["names"])
+    return [f"{nm}_{pn}" for nm, s in zip(names, case["specs"]) for pn, v in spec_params(s) if v is not None]
+
+
+def columns_collide(case):
+    """two sample parameters would share the column f"{name}_{param}" (or shadow y_true / y_pred) without the uniquify loop of
+    _construct_annotated_metric_function: the input shape of finding F19 (used as a distribution tag only)"""
+    cols = column_names(case) + ["y_true", "y_pred"]
+    return len(set(cols)) != len(cols)
+
+
+# --------------------------------------------------------------------------- feature-name stream (kind == "names")
+NAME_POOL = ["a", "A", "b", "grp", "y_true", "y_pred", "m_w", "m_w_", "m_c_d", "Sex", "a b", "sensitive_feature_0", "control_feature_0", "sensitive_feature_1", "y", ""]
+
+
+def names_container(spec, n):
+    """the Python object for a container spec {"c": kind, "names": [...]} with n rows"""
+    c, names = spec["c"], spec["names"]
+    k = len(names)
+    cols = [[("v%d" % ((i + j) % 2)) for i in range(n)] for j in range(k)]
+    if c == "series":
+        return pd.Series(cols[0], name=names[0])
+    if c == "df":
+        return pd.DataFrame(np.array(cols, dtype=object).T.reshape(n, k), columns=list(names))
+    if c == "dict":
+        return {nm: col for nm, col in zip(names, cols)}
+    if c == "dict_ragged":
+        return {nm: col[: n - j] for j, (nm, col) in enumerate(zip(names, cols))}
+    if c == "list":
+        return list(cols[0])
+    if c == "list_nonscalar":
+        return [list(r) for r in np.array(cols, dtype=object).T.reshape(n, k)]
+    if c == "ndarray":
+        return np.array(cols, dtype=object).T.reshape(n, k)
+    if c == "ndarray3d":
+        return np.array([[["p", "q"], ["r", "s"]]] * n, dtype=object)
+    raise KeyError(c)
+
+
+def names_token(spec, n):
+    """the container as the Lean model sees it"""
+    c, names = spec["c"], spec["names"]
+    enc = (lambda v: "other" if not isinstance(v, str) else proto.s(v))
+    lst = (lambda vs: ",".join(enc(v) for v in vs) if vs else "-")
+    if c == "series":
+        return "series:none" if names[0] is None else "series:" + enc(names[0])
+    if c == "df":
+        return "df:" + lst(names)
+    if c == "dict":
+        return "dict:" + lst(names) + ":1"
+    if c == "dict_ragged":
+        return "dict:" + lst(names) + ":0"
+    if c == "list":
+        return "list:1"
+    if c == "list_nonscalar":
+        return "list:0"
+    if c == "ndarray":
+        k = len(names)
+        return f"array:2:{k}" if (n == 1 or k > 1) else "array:1:0"
+    if c == "ndarray3d":
+        return "array:3:0"
+    raise KeyError(c)
+
+
+def names_data_columns(case):
+    """first principles: the columns of all_data when the features are added: y_true, y_pred and one column per sample
+    parameter, f"{metric}_{param}" with '_' appended until the name is free"""
+    cols = ["y_true", "y_pred"]
+    for mname, pnames in case.get("params") or []:
+        for pn in pnames:
+            c = f"{mname}_{pn}"
+            while c in cols:
+                c += "_"
+            cols.append(c)
+    return cols
+
+
+def names_oracle(base, spec, n):
+    """first principles: the names a container must get, or 'reject'"""
+    c, names = spec["c"], spec["names"]
+    if c == "series":
+        if names[0] is None:
+            return [base + "0"]
+        return [names[0]] if isinstance(names[0], str) else "reject"
+    if c in ("df", "dict"):
+        return list(names) if all(isinstance(v, str) for v in names) else "reject"
+    if c in ("dict_ragged", "list_nonscalar", "ndarray3d"):
+        return "reject"
+    if c == "list":
+        return [base + "0"]
+    if c == "ndarray":
+        k = len(names)
+        return [base + str(i) for i in range(k)] if (n == 1 or k > 1) else [base + "0"]
+    raise KeyError(c)
+
+
 @register
 class CHECK(Check):
     pid = "C01"
-    technique = ("Lean 4 theorems over a generic model of DisaggregatedResult._apply_functions (arbitrary metric function) "
-                 "+ compiled-driver correspondence with MetricFrame.by_group/overall/sensitive_levels/control_levels")
+    technique = ("Lean 4 theorems over a generic model of DisaggregatedResult._apply_functions (arbitrary metric function), over "
+                 "the TRANSLATION of _apply_functions / create / apply_to_dataframe / AnnotatedMetricFunction.__call__ / the "
+                 "sample-parameter loop / _extract_result (lifter frame.py -> Generated/FrameSrc.lean, proved equal to the model), "
+                 "over a multi-metric frame model and a feature-name model (lifter feature_names.py) + compiled-driver "
+                 "correspondence with MetricFrame.by_group/overall/sensitive_levels/control_levels")
     level_text = ("Theorems (all row lists, any number of control/sensitive columns, ARBITRARY metric function f): every "
                   "by_group entry is f on exactly the rows carrying that tuple (params travel with the row), NaN iff the tuple "
                   "has no rows; index = Cartesian product of observed values (observed values for one column), duplicate "
                   "free, sorted, control columns first; overall = f on all rows / on each control stratum; the non-empty "
                   "cells partition the rows (permutation). Tie: real MetricFrame vs the compiled Lean model over a pool of "
                   "14 metric callables incl. injective row-fingerprint metrics, 1-3 sensitive x 0-2 control features, all "
-                  "feature container types; independent Fraction oracle decides violations.")
+                  "feature container types; independent Fraction oracle decides violations. Translator tie: src_*_eq_model identify "
+                  "the translated create/_apply_functions with Frame.byGroup/overall and every clause is restated for the "
+                  "translation. Multi-metric frames (dict of any number of metrics, one shared all_data table, generated column "
+                  "names): every column equals the single-metric frame of that function with exactly its own sample params "
+                  "(multi_column_eq_single), for ANY metric / parameter names: the lifted uniquify loop makes the generated column "
+                  "names pairwise distinct and different from y_true/y_pred (column_name_fresh, multi_columns_ok); under the "
+                  "pre-repair naming rule the statement is false (legacy_crosstalk_witness, legacy_basecolumn_witness = finding "
+                  "F19). Accessor result types from the lifted _extract_result. Feature names: pairwise distinct strings that "
+                  "are never a data column whenever construction succeeds, which containers are rejected, defaults never collide "
+                  "(names_*).")
     design_ref = "DESIGN.md section 4, C01"
     quick_cases = 1400
     thorough_cases = 8000
-    quick_budget_s = 75
+    quick_budget_s = 110
     thorough_budget_s = 900
     workers_thorough = 4
     rule = ("datasets of 1..40 rows; 1..3 sensitive and 0..2 control columns over alphabets of 1..4 string or int values "
@@ -49,6 +228,11 @@ class CHECK(Check):
             "per-metric sample params (0..2 each: sample_weight / a / ids; integer or dyadic); containers list/ndarray/"
             "Series/DataFrame/dict, optionally with a permuted pandas index; feature names never 'y_true'/'y_pred' (those "
             "are rejected with KeyError by fairlearn - a rejection, not a wrong cell); NaN feature values not generated. "
+            "30% of the cases are turned into dicts of 1..4 metrics (names incl. prefixes of each other) with DIFFERENT sample "
+            "params per metric, one metric without any, the free-keyword metric kwsum, parameterless metrics with or without an "
+            "entry in sample_params, 8% colliding column names (the F19 shapes: 'a'+'b_c' vs 'a_b'+'c'; metric 'y' with parameter 'pred'/'true'); 12% are feature-name cases: "
+            "containers Series(name None/str/int), DataFrame (duplicate / int labels), dict (int keys, ragged), list, list of "
+            "lists, 1-d/2-d/3-d arrays for sensitive and optional control features, 1..4 rows. "
             "distinct = distinct (features, data, metric specs); non-trivial = >= 2 rows. thorough additionally "
             "enumerates ALL assignments of <= 5 rows to 2x3 sensitive levels and of <= 5 rows to 2 control x 3 sensitive levels")
     explanation = ("theorems over Model/Frame.lean for an arbitrary metric function (all inputs, no size bound); correspondence: "
@@ -58,7 +242,10 @@ class CHECK(Check):
     trusted = ("pandas groupby/reindex/MultiIndex.from_product and np.unique ordering are modelled by 'sorted distinct values' / "
                "'rows with equal key' (Frame.uniq, Frame.rowsOf) and checked only through the correspondence",
                "integer feature values are passed to the Lean model as zero-padded strings (order preserving for 0..999)",
-               "sklearn confusion_matrix / accuracy_score are modelled by their definitions (BaseMetrics, MetricPool)")
+               "sklearn confusion_matrix / accuracy_score are modelled by their definitions (BaseMetrics, MetricPool)",
+               "the pandas primitives of Model/FramePrims.lean (data[col], groupby(names).apply, np.unique, MultiIndex.from_product, "
+               "reindex, column assignment = shadowing, dict insertion) are specifications",
+               "harness/lifters/frame.py and feature_names.py: the Python-ast -> Lean translation of the lifted bodies/constants")
     assumptions = ("feature values are strings or non-negative ints < 1000, one type per column, no NaN/None feature values",
                    "sample weights are positive", "metric functions are deterministic functions of their arguments")
 
@@ -91,7 +278,102 @@ class CHECK(Check):
             spec["a"] = [str(rng.randint(-3, 7)) for _ in range(n)]
         return spec
 
+    extended = False   # set by corpus_cases(): only the C01 run itself draws the multi-metric stream (C02/C12 reuse generate())
+
+    def corpus_cases(self):
+        self.extended = True
+        return super().corpus_cases()
+
+    def _multi_case(self, rng, base):
+        """dict of 1..4 metrics with DIFFERENT sample params per metric (one of them without any), incl. the free-keyword
+        metric kwsum, metric names that are prefixes of each other, and names whose columns would collide (F19 shapes)"""
+        n = len(base["y"])
+        k = rng.choice([1, 2, 2, 3, 3, 4, 4])
+        names = rng.sample(["m0", "m1", "acc", "my metric", "a", "a_b", "a_b_c", "sample", "m0_ids", "None"], k)
+        specs = []
+        binary = all(v in (0, 1) for v in base["y"]) and all(v in (0, 1) for v in base["pred"])
+        ids = [str(2 ** i) for i in range(min(n, 40))]
+        for j in range(k):
+            r = rng.random()
+            if r < 0.35:
+                kws = rng.sample(["w", "c", "b_c", "ids", "sample_weight", "weight", "b"], rng.choice([1, 1, 2, 3]))
+                kw = {}
+                for q in kws:
+                    kw[q] = None if rng.random() < 0.1 else ([str(int(x) * rng.choice([1, 3, 5])) for x in ids] if rng.random() < 0.6
+                                                              else [str(rng.randint(-3, 9)) for _ in range(n)])
+                specs.append({"tag": "kwsum", "w": None, "ids": None, "a": None, "kw": kw})
+            else:
+                specs.append(self._metric_spec(rng, n, binary, allow_ns=False))
+        if k >= 2 and all(spec_params(s_) for s_ in specs):
+            j = rng.randrange(k)        # one metric with no sample parameters at all
+            specs[j] = {"tag": "count", "w": None, "ids": None, "a": None}
+        c = dict(base, bare=False, specs=specs, names=names)
+        if rng.random() < 0.08 and n <= 40:   # colliding column names: "a"+"b_c" vs "a_b"+"c"
+            c["names"] = ["a", "a_b"] + [x for x in names if x not in ("a", "a_b")][:k - 2] if k >= 2 else ["a"]
+            c["specs"] = [{"tag": "kwsum", "w": None, "ids": None, "a": None, "kw": {"b_c": ids[:n]}},
+                          {"tag": "kwsum", "w": None, "ids": None, "a": None, "kw": {"c": [str(3 * int(x)) for x in ids[:n]]}}] + specs[2:]
+            c["specs"] = c["specs"][:len(c["names"])]
+            c["names"] = c["names"][:len(c["specs"])]
+            if rng.random() < 0.4:    # second shape of F19: the column of a parameter is "y_pred" / "y_true" itself
+                c["names"] = ["y"] + [x for x in c["names"][1:] if x != "y"]
+                c["specs"] = [{"tag": "kwsum", "w": None, "ids": None, "a": None,
+                               "kw": {rng.choice(["pred", "true"]): [str(rng.randint(0, 1)) for _ in range(n)]}}] + \
+                    [self._metric_spec(rng, n, binary, allow_ns=False) for _ in c["names"][1:]]
+        return c
+
     def generate(self, rng, tier):
+        base_gen = self._generate_base(rng, tier)
+        while True:
+            if self.extended and rng.random() < 0.12:
+                yield self._names_case(rng)
+                continue
+            c = next(base_gen)
+            if self.extended and rng.random() < 0.3 and len(c["y"]) <= 40:
+                c = self._multi_case(rng, c)
+            yield c
+
+    def _names_spec(self, rng, n):
+        c = rng.choice(["series", "series", "df", "df", "dict", "dict", "list", "ndarray", "ndarray", "list_nonscalar",
+                        "ndarray3d", "dict_ragged"])
+        if c == "series":
+            names = [rng.choice([None, None, 5] + NAME_POOL)]
+        elif c in ("df", "dict"):
+            k = rng.choice([1, 2, 2, 3])
+            names = [rng.choice(NAME_POOL + NAME_POOL + [0, 7]) for _ in range(k)] if c == "df" else \
+                rng.sample(NAME_POOL + [0, 7], k)
+        elif c == "dict_ragged":
+            names = rng.sample(NAME_POOL[:5], 2)
+        elif c in ("list",):
+            names = [None]
+        else:
+            names = [None] * rng.choice([1, 2, 3])
+        if c in ("ndarray3d", "dict_ragged") and n < 2:
+            c, names = "list", [None]
+        return {"c": c, "names": names}
+
+    def _names_case(self, rng):
+        n = rng.choice([1, 2, 3, 4])
+        if rng.random() < 0.3:
+            # near-duplicates across / within the containers: the same name (must be rejected) or a name that differs only
+            # in case / by a trailing blank / from a default name by one character (must be accepted)
+            x = rng.choice(["a", "grp", "Sex", "sensitive_feature_0", "control_feature_0", "y_pred", "m_w"])
+            y = rng.choice([x, x.swapcase(), x + " ", x[:-1], x + "0"])
+            pr = [["m", ["w"]]] if rng.random() < 0.5 else None
+            if rng.random() < 0.5:
+                return {"kind": "names", "n": n, "params": pr, "sf": {"c": "series", "names": [x]},
+                        "cf": {"c": rng.choice(["series", "df", "dict"]), "names": [y]}}
+            other = {"c": rng.choice(["list", "ndarray"]), "names": [None]}
+            pair = {"c": rng.choice(["df", "dict"]) if x != y else "df", "names": [x, y]}
+            return {"kind": "names", "n": n, "params": pr, "sf": pair if rng.random() < 0.5 else other,
+                    "cf": other if rng.random() < 0.5 else pair}
+        c = {"kind": "names", "n": n, "sf": self._names_spec(rng, n),
+             "cf": self._names_spec(rng, n) if rng.random() < 0.6 else None}
+        if rng.random() < 0.5:
+            # sample parameters create data columns m_w, m_c_d, m_w_ ... which feature names must not reuse
+            c["params"] = rng.choice([[["m", ["w"]]], [["m", ["w", "c_d"]]], [["m", ["w"]], ["m_w", [""]]], [["m_c", ["d"]], ["m", ["c_d"]]]])
+        return c
+
+    def _generate_base(self, rng, tier):
         while True:
             n = rng.choice([1, 1, 2, 2, 3, 3, 4, 5, 6, 7, 8, 10, 12, 16, 24, 40])
             nsf = rng.choice([1, 1, 1, 2, 2, 3])
@@ -134,6 +416,17 @@ class CHECK(Check):
                 yield case([[b for _, b in asg]], [[a for a, _ in asg]], n)
 
     def shrink(self, case):
+        if case.get("kind") == "names":
+            if case["cf"] is not None:
+                yield dict(case, cf=None)
+            for which in ("sf", "cf"):
+                sp = case[which]
+                if sp and len(sp["names"]) > 1 and sp["c"] in ("df", "dict", "ndarray"):
+                    for j in range(len(sp["names"])):
+                        yield dict(case, **{which: dict(sp, names=sp["names"][:j] + sp["names"][j + 1:])})
+            if case["n"] > 2:
+                yield dict(case, n=case["n"] - 1)
+            return
         n = len(case["y"])
 
         def drop_row(c, i):
@@ -142,7 +435,9 @@ class CHECK(Check):
             c["pred"] = c["pred"][:i] + c["pred"][i + 1:]
             c["sf"] = [col[:i] + col[i + 1:] for col in c["sf"]]
             c["cf"] = [col[:i] + col[i + 1:] for col in c["cf"]]
-            c["specs"] = [{k: (v[:i] + v[i + 1:] if isinstance(v, list) else v) for k, v in s.items()} for s in c["specs"]]
+            cut = (lambda v: v[:i] + v[i + 1:] if isinstance(v, list) else
+                   ({a: cut(b) for a, b in v.items()} if isinstance(v, dict) else v))
+            c["specs"] = [{k: cut(v) for k, v in s.items()} for s in c["specs"]]
             return c
         if len(case["specs"]) > 1:
             for j in range(len(case["specs"])):
@@ -193,16 +488,40 @@ class CHECK(Check):
         if case["cf"]:
             kw["control_features"] = mc.feature_arg(case["cf"], case["cf_names"], case["cf_container"], index)
         if case["bare"]:
-            metrics = mc.pyfunc(case["specs"][0]["tag"])
-            sp = mc.sample_params_of(case["specs"][0], index)
+            metrics = pyfunc_for(case["specs"][0]["tag"])
+            sp = sample_params_for(case["specs"][0], index)
         else:
-            metrics = {nm: mc.pyfunc(s["tag"]) for nm, s in zip(case["names"], case["specs"])}
-            sp = {nm: mc.sample_params_of(s, index) for nm, s in zip(case["names"], case["specs"])}
+            metrics = {nm: pyfunc_for(s["tag"]) for nm, s in zip(case["names"], case["specs"])}
+            sp = {nm: sample_params_for(s, index) for nm, s in zip(case["names"], case["specs"])}
             if all(not v for v in sp.values()) and case["perm_seed"] % 2 == 0:
                 sp = None
+            elif case["perm_seed"] % 3 == 0:
+                # a metric without sample parameters may simply have no entry in sample_params (`sample_params.get(name, {})`)
+                sp = {k: v for k, v in sp.items() if v}
         return MetricFrame(metrics=metrics, y_true=y, y_pred=pred, sensitive_features=sfa, sample_params=sp, **kw)
 
+    def impl_names(self, case):
+        from fairlearn.metrics import MetricFrame, count
+        n = case["n"]
+        kw = {}
+        if case["cf"] is not None:
+            kw["control_features"] = names_container(case["cf"], n)
+        metrics, sp = count, None
+        if case.get("params"):
+            metrics = {mname: kw_sum for mname, _ in case["params"]}
+            sp = {mname: {pn: [1.0] * n for pn in pnames} for mname, pnames in case["params"]}
+        try:
+            mf = MetricFrame(metrics=metrics, y_true=[0] * n, y_pred=[1] * n,
+                             sensitive_features=names_container(case["sf"], n), sample_params=sp, **kw)
+        except ValueError:
+            return {"names": "ValueError"}
+        return {"names": "ok", "sensitive_levels": list(mf.sensitive_levels),
+                "control_levels": None if mf.control_levels is None else list(mf.control_levels),
+                "index_names": list(mf.by_group.index.names)}
+
     def impl(self, case):
+        if case.get("kind") == "names":
+            return self.impl_names(case)
         mf = self.build(case)
         ncf, nsf = len(case["cf"]), len(case["sf"])
         bg, ov = mf.by_group, mf.overall
@@ -226,13 +545,24 @@ class CHECK(Check):
         return [[mc.enc_level(v) for v in col] for col in case["cf"] + case["sf"]]
 
     def lines(self, case, impl_out):
+        if case.get("kind") == "names":
+            return [f"fn.names {proto.strs(names_data_columns(case))} {names_token(case['sf'], case['n'])} "
+                    f"{'absent' if case['cf'] is None else names_token(case['cf'], case['n'])}"]
         n = len(case["y"])
         ys, ps = proto.lst([F(v) for v in case["y"]]), proto.lst([F(v) for v in case["pred"]])
         cols = " ".join(proto.strs(c) for c in self._cols(case))
         ls = []
         for s in case["specs"]:
-            p0, p1 = mc.p0p1(s, n)
-            ls.append(f"frame.eval {s['tag']} {len(case['cf'])} {ys} {ps} {proto.lst(p0)} {proto.lst(p1)} {cols}")
+            tag, p0, p1 = p0p1_for(s, n)
+            ls.append(f"frame.eval {tag} {len(case['cf'])} {ys} {ps} {proto.lst(p0)} {proto.lst(p1)} {cols}")
+        # the whole dict at once through the multi-metric model (Model/FrameMulti.lean over Generated/FrameSrc.lean):
+        # one shared all_data table, columns f"{name}_{param}", every metric reading its keyword arrays from it
+        parts = []
+        for nm, s in zip(self._names(case), case["specs"]):
+            pr = spec_params(s)
+            parts.append(" ".join([proto.s(nm), "none" if case["bare"] else proto.s(nm), s["tag"], str(len(pr))]
+                                  + [f"{proto.s(pn)} {'none' if v is None else proto.lst([F(x) for x in v])}" for pn, v in pr]))
+        ls.append(f"fm.eval {len(case['cf'])} {ys} {ps} {len(case['specs'])} {' '.join(parts)} {cols}")
         return ls
 
     # ---------------------------------------------------------------- oracle
@@ -241,20 +571,69 @@ class CHECK(Check):
         n = len(case["y"])
         ncf = len(case["cf"])
         cols = self._cols(case)
-        p0, p1 = mc.p0p1(spec, n)
+        otag, p0, p1 = p0p1_for(spec, n)
         rows = [(F(case["y"][i]), F(case["pred"][i]), p0[i], p1[i]) for i in range(n)]
         keys = [tuple(c[i] for c in cols) for i in range(n)]
         levels = [sorted(set(c)) for c in cols]
         by, ov = {}, {}
         for k in itertools.product(*levels):
             sl = [rows[i] for i in range(n) if keys[i] == k]
-            by[k] = mc.oracle_metric(spec["tag"], sl) if sl else mc.NAN
+            by[k] = mc.oracle_metric(otag, sl) if sl else mc.NAN
         for c in itertools.product(*levels[:ncf]):
             sl = [rows[i] for i in range(n) if keys[i][:ncf] == c]
-            ov[c] = mc.oracle_metric(spec["tag"], sl) if sl else mc.NAN
+            ov[c] = mc.oracle_metric(otag, sl) if sl else mc.NAN
         return by, ov
 
+    def judge_names(self, case, o, mo):
+        probs = []
+        n = case["n"]
+        if "crash" in o:
+            probs.append(Problem("correspondence", f"MetricFrame raised something other than ValueError: {o}", "C01.names_error_kind"))
+            o = {"names": "ValueError"}
+        want_s = names_oracle("sensitive_feature_", case["sf"], n)
+        want_c = None if case["cf"] is None else names_oracle("control_feature_", case["cf"], n)
+        if want_s == "reject" or want_c == "reject":
+            want = "reject"
+        else:
+            allnames = want_s + (want_c or [])
+            reserved = set(names_data_columns(case))     # a feature must not be called like a data column (F19)
+            want = "reject" if (len(set(allnames)) != len(allnames) or reserved & set(allnames)) else (want_s, want_c)
+        if want == "reject":
+            if o["names"] != "ValueError":
+                probs.append(Problem("property", f"feature containers must be rejected (non-string / duplicate names, bad shape) "
+                                     f"but names {o.get('sensitive_levels')}/{o.get('control_levels')} were produced", "C01.names_rejected"))
+        else:
+            if o["names"] != "ok":
+                probs.append(Problem("property", f"valid feature containers rejected; expected names {want}", "C01.names_accepted"))
+            else:
+                got = o["sensitive_levels"] + (o["control_levels"] or [])
+                if not all(isinstance(x, str) for x in got) or len(set(got)) != len(got):
+                    probs.append(Problem("property", f"feature names {got} are not pairwise distinct strings", "C01.names_nodup"))
+                if (o["sensitive_levels"], o["control_levels"]) != want:
+                    probs.append(Problem("property", f"feature names {o['sensitive_levels']}/{o['control_levels']}, expected {want}",
+                                         "C01.names_accepted"))
+                elif o["index_names"] != (want[1] or []) + want[0]:
+                    probs.append(Problem("correspondence", f"by_group index names {o['index_names']}", "C01.control_first"))
+        if mo is not None:
+            m = mo[0]
+            if want == "reject":
+                ok = m.startswith("err:")
+            else:
+                t = m.split(" ")
+                ok = len(t) == 2 and proto.p_strs(t[0]) == want[0] and \
+                    ((t[1] == "none" and want[1] is None) or (t[1] != "none" and want[1] is not None and proto.p_strs(t[1]) == want[1]))
+            if not ok:
+                if featurenamessrc_changed():
+                    probs.append(Problem("correspondence", "the names model built from the lifted base names / default-name "
+                                         f"format departs from the first-principles oracle (sources changed): model {m} vs oracle {want}",
+                                         "C01.generated-source-vs-oracle"))
+                else:
+                    probs.append(Problem("harness", f"names model {m} vs oracle {want}"))
+        return probs
+
     def judge(self, case, o, mo):
+        if case.get("kind") == "names":
+            return self.judge_names(case, o, mo)
         if "crash" in o:
             return [Problem("property", f"MetricFrame construction failed on a valid input: {o}", "C01.accepts")]
         probs = []
@@ -304,9 +683,58 @@ class CHECK(Check):
                     for label, tab, mt in (("by_group", got["by_group"], mby), ("overall", got["overall"], mov)):
                         if [tuple(k) for k, _ in tab] != list(mt.keys()) or any(not mc.same(v, mt[tuple(k)]) for k, v in tab):
                             probs.append(Problem("correspondence", f"{nm}.{label}: impl {tab[:6]} vs model {list(mt.items())[:6]}", "C01.model"))
+        if mo is not None and len(mo) > len(case["specs"]):
+            probs.extend(self.judge_multi(case, o, mo[len(case["specs"])], any(p.kind == "property" for p in probs)))
+        return probs
+
+    def judge_multi(self, case, o, line, oracle_failed):
+        """the dict of metrics evaluated at once by Model/FrameMulti.lean (shared all_data table, generated column names,
+        generated AnnotatedMetricFunction.__call__ / apply_to_dataframe / create): every column must equal the single-metric
+        oracle of that function with exactly its own sample params (C01.multi_column_eq_single), whatever the metric and
+        parameter names are (colliding f"{name}_{param}" names are made unique by the constructor: repair of F19)."""
+        probs = []
+        t = line.split(" ")
+        names = self._names(case)
+        if line == "bad-op" or len(t) != 4 + 3 * len(names):
+            return [Problem("harness", f"fm.eval output {line[:200]!r}")]
+        mtypes = (t[-2], t[-1])
+        if mtypes != EXPECTED_TYPES[(case["bare"], len(case["cf"]) > 0)]:
+            msg = f"accessor types of the model {mtypes} vs the documented table"
+            probs.append(Problem("correspondence", "the translated _extract_result departs from the documented result types "
+                                 "(sources changed): " + msg, "C01.generated-source-vs-oracle") if framesrc_changed()
+                         else Problem("harness", msg))
+        if tuple(o["types"]) != mtypes:
+            probs.append(Problem("correspondence", f"result types {o['types']} vs model {mtypes}", "C01.result_types"))
+        bkeys = [tuple(k) for k in mc.parse_keys(t[0])]
+        okeys = [tuple(k) for k in mc.parse_keys(t[1])]
+        if len(case["cf"]) == 0:
+            okeys = [()]
+        for j, (nm, spec) in enumerate(zip(names, case["specs"])):
+            if proto.p_s(t[2 + 3 * j]) != nm:
+                probs.append(Problem("harness", f"fm.eval column order: {t[2 + 3 * j]} for {nm}"))
+                continue
+            cells = lambda tok: ["missing" if c == "missing" else mc.model_tok(c) for c in tok.split(",")]  # noqa: E731
+            mby = dict(zip(bkeys, cells(t[3 + 3 * j])))
+            mov = dict(zip(okeys, cells(t[4 + 3 * j])))
+            by, ov = self.oracle(case, spec)
+            if mby != by or mov != ov:
+                msg = f"{nm}: multi-metric model {dict(list(mby.items())[:4])} / {mov} vs oracle {dict(list(by.items())[:4])} / {ov}"
+                if framesrc_changed():
+                    probs.append(Problem("correspondence", "the translated source departs from the first-principles oracle "
+                                         "(MetricFrame sources changed): " + msg, "C01.generated-source-vs-oracle"))
+                else:
+                    probs.append(Problem("harness", msg))
+            if not oracle_failed:
+                got = o["metrics"][nm]
+                for label, tab, mt in (("by_group", got["by_group"], mby), ("overall", got["overall"], mov)):
+                    if [tuple(k) for k, _ in tab] != list(mt.keys()) or any(not mc.same(v, mt[tuple(k)]) for k, v in tab):
+                        probs.append(Problem("correspondence", f"{nm}.{label}: impl {tab[:6]} vs multi-metric model "
+                                             f"{list(mt.items())[:6]}", "C01.multi_model"))
         return probs
 
     def known(self, case, problem, entries):
+        if case.get("kind") == "names":
+            return None
         """F9: a 1-row dataset whose features come as a numpy array is rejected (np.squeeze drops the only axis).
         Exactly that shape: one row, an ndarray feature container, the constructor raising ValueError."""
         if problem.relation == "C01.accepts" and len(case["y"]) == 1 and "ValueError" in problem.msg \
@@ -317,6 +745,13 @@ class CHECK(Check):
         return None
 
     def signature(self, case, o):
+        if case.get("kind") == "names":
+            tags = ["names", "names:sf=" + case["sf"]["c"], "names:cf=" + (case["cf"]["c"] if case["cf"] else "absent"),
+                    "names:" + str(o.get("names", "crash")), "names:params" if case.get("params") else "names:no_params"]
+            allf = [x for sp_ in (case["sf"], case["cf"]) if sp_ for x in sp_["names"] if isinstance(x, str)]
+            if set(allf) & set(names_data_columns(case)):
+                tags.append("names:feature_named_like_data_column")
+            return ("names", json.dumps(case, sort_keys=True)), True, tags
         n = len(case["y"])
         ncf, nsf = len(case["cf"]), len(case["sf"])
         cols = self._cols(case)
@@ -343,9 +778,18 @@ class CHECK(Check):
             tags.append("int_feature")
         for s in case["specs"]:
             tags.append("metric=" + s["tag"])
-            tags.append("params=" + str(sum(s.get(k) is not None for k in ("w", "ids", "a"))))
+            tags.append("params=" + str(sum(v is not None for _, v in spec_params(s))))
+        if not case["bare"] and len(case["specs"]) >= 2:
+            pc = [sum(v is not None for _, v in spec_params(s)) for s in case["specs"]]
+            if 0 in pc and max(pc) > 0:
+                tags.append("multi:one_metric_without_params")
+            if len({tuple(pn for pn, v in spec_params(s) if v is not None) for s in case["specs"]}) > 1:
+                tags.append("multi:different_params_per_metric")
+        if columns_collide(case):
+            tags.append("multi:column_names_collide(F19 shape)")
         if "crash" in o:
             tags.append("crash=" + str(o.get("crash")))
         key = (tuple(map(tuple, cols)), tuple(case["y"]), tuple(case["pred"]),
-               tuple((s["tag"], tuple(s["w"] or ()), tuple(s["a"] or ())) for s in case["specs"]), case["bare"])
+               tuple((s["tag"], tuple(s["w"] or ()), tuple(s["a"] or ()), json.dumps(s.get("kw"), sort_keys=True)) for s in case["specs"]),
+               case["bare"], tuple(case["names"] or ()))
         return key, n >= 2, tags
